@@ -3,7 +3,7 @@
    not proved). [kidx n i j] is the closed form i*n - i(i+3)/2 + j - 1. Statements only. *)
 From PV Require Import Model.Condensed Proofs.CondensedP Proofs.PropagateP.
 From Coq Require Reals.
-From PV Require Proofs.NormP.
+From PV Require Proofs.NormP Proofs.RoundFloatP Proofs.SquaredFloatP.
 
 Theorem C20_condensed_symmetric : forall n i j, to_condensed n i j = to_condensed n j i.
 Proof. exact condensed_sym. Qed.
@@ -99,6 +99,19 @@ Theorem C20_l2_normalize_zero_rows_unchanged : forall l : list R, NormP.sumsq l 
 Proof. exact NormP.l2_row_zero. Qed.
 End RealRows.
 
+(* ---- float side of to_squared: for every n up to 2^20 the binary64 evaluation of numpy's formulas returns exactly the
+   (i, j) of the exact model ([row_float] / [col_float]: the expressions with every operation rounded by Flocq's
+   binary64 rounding [rnd64]; integer sub-expressions are exact int64 arithmetic).  Real-number axioms. ---- *)
+Module Binary64.
+Import Reals. Local Open Scope Z_scope.
+Theorem C20_binary64_to_squared_row_is_exact : forall n i j, 0 <= i -> i < j -> j < n -> n <= 2 ^ 20 ->
+  SquaredFloatP.row_float RoundFloatP.rnd64 n (4 * n * n - 4 * n + 1 - 8 * kidx n i j) = fst (to_squared n (kidx n i j)).
+Proof. exact SquaredFloatP.binary64_to_squared_row_exact. Qed.
+Theorem C20_binary64_to_squared_column_is_exact : forall n i j, 0 <= i -> i < j -> j < n -> n <= 2 ^ 20 ->
+  SquaredFloatP.col_float n (kidx n i j) i = IZR (snd (to_squared n (kidx n i j))).
+Proof. exact SquaredFloatP.binary64_to_squared_col_exact. Qed.
+End Binary64.
+
 Print Assumptions C20_condensed_symmetric.
 Print Assumptions C20_condensed_rejects_diagonal.
 Print Assumptions C20_condensed_closed_form.
@@ -122,3 +135,5 @@ Print Assumptions C20_propagate_terminates_within_fuel.
 Print Assumptions RealRows.C20_l2_normalize_unit_norm.
 Print Assumptions RealRows.C20_l2_normalize_entries.
 Print Assumptions RealRows.C20_l2_normalize_zero_rows_unchanged.
+Print Assumptions Binary64.C20_binary64_to_squared_row_is_exact.
+Print Assumptions Binary64.C20_binary64_to_squared_column_is_exact.
